@@ -66,6 +66,9 @@ def exc_name(node):
     return None
 
 
+GLOBAL_VARIABLES = set()     # module-level assigned names of the analysed package
+
+
 def handler_classes(h):
     """None = bare except (catches everything).  A handler whose type is
     computed at run time cannot be decided statically: AnalysisError."""
@@ -78,6 +81,8 @@ def handler_classes(h):
         elts = [h.type]
     out = []
     for e in elts:
+        if isinstance(e, ast.Name) and e.id in GLOBAL_VARIABLES:
+            raise AnalysisError(f"line {h.lineno}: `except {e.id}` names a module-level variable, not a class; the exception classes are computed at run time and the exception flow cannot be decided statically")
         if isinstance(e, (ast.Name, ast.Attribute)):
             out.append(exc_name(e))
         else:
